@@ -217,8 +217,32 @@ func (ft *funcTrans) call(in ssa.CallInstruction, val *ssa.Call) {
 		}
 	}
 	ecPost := &evalCtx{w: w, pkg: pkg, env: envPost, st: st, old: pre, lets: c.Lets}
+	calleeBV := c.Mode == "bv"
+	if calleeBV != w.BV && !c.Trusted {
+		// contract written for the other integer mode: only its frame is used here
+		w.assumptions["postconditions of "+name+" not used (contract is in "+c.Mode+" mode)"] = true
+		return
+	}
 	for _, e := range c.Ensures {
-		t := ecPost.evalBool(e.E)
+		var t Term
+		var evalErr interface{}
+		func() {
+			defer func() {
+				if r := recover(); r != nil {
+					if _, ok := r.(unsupportedErr); ok {
+						evalErr = r
+						return
+					}
+					panic(r)
+				}
+			}()
+			t = ecPost.evalBool(e.E)
+		}()
+		if evalErr != nil {
+			// e.g. a spec function of another property's spec file: the clause is simply not assumed
+			w.assumptions[fmt.Sprintf("postcondition of %s not used here (%v)", name, evalErr)] = true
+			continue
+		}
 		ft.assume(t.S)
 	}
 }
